@@ -102,24 +102,17 @@ Theorem C01_dh_homozygous : forall p geno xoprob meta xc nmating nprogeny nself 
 Proof. exact mate_dh. Qed.
 Print Assumptions C01_dh_homozygous.
 
-(** METADATA (partial) — every marker array except vrnt_hapalt / vrnt_hapref reaches the progeny unaltered; all of them when
-    the parents carry no hap-allele arrays *)
-Theorem C01_metadata_partial : forall p geno xoprob meta xc nmating nprogeny nself pc fc draws x,
-  mate p geno xoprob meta xc nmating nprogeny nself pc fc draws = Some x ->
-  let m := p_meta x in
-  vm_chrgrp m = vm_chrgrp meta /\ vm_phypos m = vm_phypos meta /\ vm_name m = vm_name meta /\ vm_genpos m = vm_genpos meta /\
-  vm_xoprob m = vm_xoprob meta /\ vm_hapgrp m = vm_hapgrp meta /\ vm_mask m = vm_mask meta /\
-  vm_chrgrp_name m = vm_chrgrp_name meta /\ vm_chrgrp_stix m = vm_chrgrp_stix meta /\
-  vm_chrgrp_spix m = vm_chrgrp_spix meta /\ vm_chrgrp_len m = vm_chrgrp_len meta /\
-  (vm_hapalt meta = None -> vm_hapref meta = None -> m = meta).
+(** METADATA — all thirteen marker arrays (incl. vrnt_hapalt / vrnt_hapref since the repair 79a4ba88) reach the progeny unaltered *)
+Theorem C01_metadata : forall p geno xoprob meta xc nmating nprogeny nself pc fc draws x,
+  mate p geno xoprob meta xc nmating nprogeny nself pc fc draws = Some x -> p_meta x = meta.
 Proof. exact mate_meta. Qed.
-Print Assumptions C01_metadata_partial.
+Print Assumptions C01_metadata.
 
-(** ... the hap-allele arrays are dropped *)
-Theorem C01_metadata_refuted : exists p geno xoprob meta xc nm np nself pc fc draws x l,
-  mate p geno xoprob meta xc nm np nself pc fc draws = Some x /\ vm_hapalt meta = Some l /\ vm_hapalt (p_meta x) = None.
-Proof. exact meta_refuted. Qed.
-Print Assumptions C01_metadata_refuted.
+(** ... the hand-over coded before the repair ([progeny_meta_dropped], no longer part of [mate]) did not have this property *)
+Theorem C01_metadata_dropped_refuted : exists meta l, vm_hapalt meta = Some l /\ vm_hapalt (progeny_meta_dropped meta) = None /\
+  progeny_meta_dropped meta <> meta.
+Proof. exact meta_dropped_refuted. Qed.
+Print Assumptions C01_metadata_dropped_refuted.
 
 (** mate() succeeds on every well-formed call (row width = nparent, count arrays of length ncross, used parent indices < ntaxa) *)
 Theorem C01_mate_defined : forall p geno xoprob meta xc nmating nprogeny nself pc fc draws nm np,
